@@ -60,6 +60,8 @@ def gen_script(rng, st, projs):
             appids = [streams.app_id_of(e['rec']) for e in st['entries']]
             appids = [a for a in appids if a and ' ' not in a]
             arg = rng.choice(names + names + ['all', 'bogus', rng.choice(names).lower()] + appids[:6])
+            if len(names) > 26 and rng.random() < 0.6:
+                arg = rng.choice(names[26:])
             if appids and rng.random() < 0.3:
                 arg = rng.choice(appids)
             cmd = (rng.choice(['connection', 'c', 'conn']) + ' ' + arg, 'connection', arg)
@@ -78,7 +80,10 @@ def run_one(ctx, rng, cands, spec):
     install_snapshot()
     from frontends.tui.controller import Controller
     k = rng.randint(2, 4)
-    st = streams.build(rng, cands, k=k, n_each=tuple(spec['n_each']), tagged=True, opts={'titles': rng.choice([0.02, 0.1])})
+    many = rng.random() < 0.06
+    if many:
+        k = rng.randint(27, 31)          # connection names past Z (AA, AB, ...)
+    st = streams.build(rng, cands, k=k, n_each=(3, 9) if many else tuple(spec['n_each']), tagged=True, opts={'titles': rng.choice([0.02, 0.1])})
     projs = [c05.project(e, st['names'][e['ci']], st['dialect']) for e in st['entries']]
     hooks, f_text, f_ast = gen_script(rng, st, projs)
     lines = [e['line'] for e in st['entries']]
